@@ -997,6 +997,11 @@ void XMLPlatformUtils::removeDotDotSlash(XMLCh* const path
                                          , MemoryManager* const manager)
 {
     XMLSize_t pathLen = XMLString::stringLen(path);
+
+    // nothing to remove from an empty path (and the search below starts at path[1])
+    if (pathLen == 0)
+        return;
+
     XMLCh* tmp1 = (XMLCh*) manager->allocate
     (
         (pathLen+1) * sizeof(XMLCh)
